@@ -19,7 +19,8 @@ CHECKS = {
              "(percent-encoded CR/LF, NUL, long paths) are run through the real protocol and judged the same way; routing "
              "configurations ([[locations]] with and without catch-all) are decided by Router.tla replayed through the real "
              "start_server; the PyOpenSSL layer's close (close_notify then TCP close) by the TlsPump replay."
-             " Logging faults: the k-th call into the protocol's logger raises, for every k of random executions - at most one well-formed, untorn response may reach the client (checks/logfault.py).",
+             " Logging faults: the k-th call into the protocol's logger raises, for every k of random executions - at most one well-formed, untorn response may reach the client (checks/logfault.py)."
+             " Handler statuses arrive as ints, floats, Decimals, Fractions and IntEnum members, responses as GeminiResponse, subclasses with their own constructors and attribute bags; Titan request lines with extreme / signed / non-numeric declared sizes are answered exactly once, at the latest when the timer fires (titan_declared_sizes).",
         note="Trusted: TLC; the fake transport's fidelity to asyncio's transport contract; scripted handler/middleware "
              "behaviour classes. The stdlib-TLS backend is covered by live-socket checks of C06/C15, not here."),
     "C04": dict(
@@ -32,7 +33,8 @@ CHECKS = {
              "rate limiter -> handler): FirstRefusalWins, RefusedDoNotConsume, ServedOnlyIfAllAdmit model-checked and sampled "
              "behaviours replayed against the protocol factory captured from the real start_server over real TLS sessions in "
              "memory, with look-alike certificates and changing peer addresses."
-             " The peer identity (none / certificate / look-alike with another key, three addresses) rotates from one connection to the next while the request bytes of a configuration stay identical (state shared across connections shows); RefusalNotPreempted: the request timer never pre-empts a slow component's refusal.",
+             " The peer identity (none / certificate / look-alike with another key, three addresses) rotates from one connection to the next while the request bytes of a configuration stay identical (state shared across connections shows); RefusalNotPreempted: the request timer never pre-empts a slow component's refusal."
+             " A client certificate the certificate library cannot interpret (X.509 version field 3) never gets the verdict for 'no certificate' in the assembled-chain replay.",
         note="Trusted: as C01. The real RateLimiter/AccessControl/CertificateAuth components are bound by C05/C09/C10."),
     "C07": dict(
         engine="ServerConn", design="8 C07, 5.1",
@@ -40,14 +42,16 @@ CHECKS = {
              "all segmentations at the cut points of 14 stream shapes (Gemini/Titan, boundary lengths 1022..1025, trailing "
              "bytes, late content), replayed transition by transition on the real protocol; random cut sets beyond the model "
              "validated by TLC."
-             " C07 is relational: every non-conforming execution is re-run with the same bytes at the same instants under other segmentations and must end the same; request lines are IRIs half of the time so that cut points fall inside multi-byte characters and escapes.",
+             " C07 is relational: every non-conforming execution is re-run with the same bytes at the same instants under other segmentations and must end the same; request lines are IRIs half of the time so that cut points fall inside multi-byte characters and escapes."
+             " titan_segmentation: the real FileUploadHandler (limit, tokens, media types) behind an allowing / refusing chain, six segmentations per upload, same wire bytes and same tree; TlsPump.RequestAnswered: a request sharing a read with the client's close_notify is answered (deviation DevCloseBeforeDeliver must be caught).",
         note="Trusted: as C01. The ciphertext level (TCP reads cutting TLS records, application data coalesced with the end of "
              "the handshake) is decided by the TlsPump replay, run in the same check with PlainInOrder / PlainComplete."),
     "C15": dict(
         engine="ServerConn", design="8 C15, 5.1",
         text="TimerWhileWaiting (invariant), TimeoutAnswers and TimeoutHarmless (action properties) model-checked with the timer "
              "firing before/after every data arrival, completion and disconnect; replayed under the virtual clock on the real "
-             "protocol (a pending loop timer is the observable, no private attribute is read).",
+             "protocol (a pending loop timer is the observable, no private attribute is read)."
+             " The harness's timer observable is 'armed' only when the timer is due within the request timeout of the last byte received; a stream announcing a 3 MB upload and going silent.",
         note="Trusted: as C01; virtual-time loop replaces only the clock and the blocking wait of asyncio's SelectorEventLoop. "
              "The handshake phase is decided by the TlsPump replay (HsTimerWhileHandshaking, SilentPeerDropped) and by live "
              "sockets on both backends with shortened timeouts (stall before / inside the ClientHello, after it, after the "
@@ -60,7 +64,8 @@ CHECKS = {
              "with its own clean-up task running (decision, 44 text and every address's level compared); long random runs with "
              "gathered concurrent calls are validated by TLC against the trace spec; non-conforming runs are judged by the "
              "observation spec."
-             " The command line front end is decided by Assembly.tla (RateAsConfigured): cases of `nauyaca serve` with a TOML file, CLI options and NAUYACA_* variables run through the real command with start_server recorded.",
+             " The command line front end is decided by Assembly.tla (RateAsConfigured): cases of `nauyaca serve` with a TOML file, CLI options and NAUYACA_* variables run through the real command with start_server recorded."
+             " Parameter sets with refill rate 0; a limiter that raises is a wrong refusal; Assembly: [rate_limit] whose values are zeros reaches the server as written.",
         note="Trusted: TLC; exactness of float arithmetic on the dyadic grid used; the virtual clock patch of time.monotonic."),
     "C09": dict(
         engine="Acl", design="8 C09, 5.3, Appendix L",
@@ -81,7 +86,8 @@ CHECKS = {
              "real StaticFileHandler, the served node being identified by sentinel search, and compared with the model; random "
              "byte-level spellings (backslash, NUL, control bytes, long names, double encoding) are judged by sentinel; "
              "disagreements are judged by the observation spec."
-             " Requests with a tree change in flight: after the k-th pathlib call of a request a link is atomically re-pointed outside the root, for every k.",
+             " Requests with a tree change in flight: after the k-th pathlib call of a request a link is atomically re-pointed outside the root, for every k."
+             " Names beginning with dots (..draft.gmi, ..data/, ...) are requested literally, encoded and with the dots encoded.",
         note="Trusted: TLC; sentinel-based identification of what was served; the POSIX file system of the sandbox. Newline "
              "translation of read_text (CRLF files are served with LF) is outside the property as stated and not judged."),
     "C05": dict(
@@ -96,7 +102,8 @@ CHECKS = {
              "sequences of TLS connections with different / no certificates against the chain assembled by the real "
              "start_server (Chain.tla) decide that each connection is judged on its own certificate. "
              "Thorough: real TLS on the PyOpenSSL backend in memory with RSA/EC/Ed25519 client certificates."
-             " Assembly.tla (CertRulesAsConfigured, FlagNeverIgnored) binds the `nauyaca serve` front end: the file's rules reach start_server whatever CLI / ENV overrides are present.",
+             " Assembly.tla (CertRulesAsConfigured, FlagNeverIgnored) binds the `nauyaca serve` front end: the file's rules reach start_server whatever CLI / ENV overrides are present."
+             " Tokens with an undecodable segment cancelled by '..' and with an encoded backslash.",
         note="Trusted: TLC; sentinel identification; capsule without symlinks (C02 covers links)."),
     "C13": dict(
         engine="ClientConn", design="8 C13, 5.6, Appendix D",
@@ -108,7 +115,8 @@ CHECKS = {
              "with a fake transport and a real SQLite pin store; every returned response is checked byte for byte against the "
              "bytes after the first CRLF; random grammar streams (every codec label Python knows plus unknown ones) are judged by "
              "the byte-level oracle."
-             " Random classified streams (400 / 2 000) and pairs of overlapping calls on one client object (150 / 600) are recorded and validated by TLC against ClientConnTrace.",
+             " Random classified streams (400 / 2 000) and pairs of overlapping calls on one client object (150 / 600) are recorded and validated by TLC against ClientConnTrace."
+             " The server may talk before the request has left: Rx / PeerEnds are enabled before Verify in ClientConn, and the harness holds create_connection until the Verify action.",
         note="Trusted: TLC; fake transport contract; the byte-level oracle of checks/clientconn.py (expected_body)."),
     "C11": dict(
         engine="ClientConn", design="8 C11, 5.6, Appendix D",
@@ -116,7 +124,8 @@ CHECKS = {
              "TOFU off x get with query / upload with token and content) and every transition replayed on the real client: the "
              "observable is the bytes that have left the client on the transport at each step, so a request written before the pin "
              "check (or with verify_ssl=True) is seen; the request that does leave is compared byte for byte."
-             " Histories include CallRacing (another handle of the pin store pins the host while the connection is being made), CallStoreFault (the k-th SQL statement of the call fails) and look-alike certificates (same name and serial, other key).",
+             " Histories include CallRacing (another handle of the pin store pins the host while the connection is being made), CallStoreFault (the k-th SQL statement of the call fails) and look-alike certificates (same name and serial, other key)."
+             " ClientCli.tla (TofuAsRequested) for the command-line front end; ClientConn allows the server to talk before the request has left (Rx / PeerEnds before Verify).",
         note="Trusted: as C13. Multi-call histories on one client object (redirect hops, caches across calls) are covered by the "
              "Tofu history check (C03)."),
     "C03": dict(
@@ -130,7 +139,8 @@ CHECKS = {
              "known_hosts table, the result / exception (both fingerprints in the message, no content) and the bytes every peer "
              "received are compared; 80 (400) random histories of up to 40 operations generated by the driver are recorded and "
              "validated by TLC against TofuTrace (conformance of every step, every invariant at every step)."
-             " Further history actions: CallRacing, CallStoreFault(k), ContextCycle (client reused after its async-with block); the two readable certificates are look-alikes (same subject / issuer and serial number).",
+             " Further history actions: CallRacing, CallStoreFault(k), ContextCycle (client reused after its async-with block); the two readable certificates are look-alikes (same subject / issuer and serial number)."
+             " ClientCli.tla: every option combination of `nauyaca get` run through the real command - trust-on-first-use is on unless --no-trust is given (TofuAsRequested). Tofu.ReopenFault: another client is created on the same store while a statement of opening it fails; the pins stay.",
         note="Trusted: TLC; scripted peers supply the DER through ssl_object.getpeercert; a DER blob the X.509 parser rejects "
              "stands for certificates OpenSSL would accept but cryptography cannot read."),
     "C12": dict(
@@ -140,7 +150,8 @@ CHECKS = {
              "OthersUntouched; every (store, operation) TLC enumerates is then executed on the real TOFUDatabase with a fault at "
              "every statement boundary (injected sqlite3/OSError; real process kill by fork + _exit), the file reopened, and "
              "the outcome judged by TLC against After(before, op); export->import round trips for generated host names."
-             " A third of the operations go through the `nauyaca tofu` command line (typer runner, $HOME store) under the same statement-boundary faults and process kills; revoke-by-host-name is an operation of its own; the two host names differ only where SQL LIKE has a wildcard.",
+             " A third of the operations go through the `nauyaca tofu` command line (typer runner, $HOME store) under the same statement-boundary faults and process kills; revoke-by-host-name is an operation of its own; the two host names differ only where SQL LIKE has a wildcard."
+             " Operation revokeNoPort (port 0 / None, library and CLI) names nothing; round trips carry first-seen values ahead of the local clock and in other notations; the statement-boundary shim follows whatever alias security/tofu.py imports sqlite3 under, and the check fails as machinery when no boundary is observed.",
         note="Trusted: TLC; SQLite's durability; boundaries = Cursor.execute / Connection.commit entries.",
         technique="TLA+ spec + TLC model checking; fault enumeration at every SQL statement boundary on the real store, judged by a TLC observation spec"),
     "C16": dict(
@@ -153,7 +164,8 @@ CHECKS = {
              "query / port / trailing slash) with max_redirects 0..6; pairs of overlapping fetches on one client object, each "
              "judged by its own reference walk; the pin check of every hop under rotations and across calls "
              "is decided by the Tofu history replay run with C16's formulas."
-             " Every URL has one spelling per run (canonical or not: explicit default port, empty path, empty query, upper-case host), used by the caller and every redirecting server.",
+             " Every URL has one spelling per run (canonical or not: explicit default port, empty path, empty query, upper-case host), used by the caller and every redirecting server."
+             " Redirect answers use statuses 30, 31, 32, 35, 39; ClientCli.tla: --max-redirects / --no-redirects reach the client as given; random graphs over 7 URLs are judged by TLC with RedirectObs.tla's reference walk.",
         note="Trusted: TLC; scripted peers; URLs are opaque strings in the model."),
     "C06": dict(
         engine="TlsPump", design="8 C06, 5.2, Appendix H",
@@ -166,7 +178,8 @@ CHECKS = {
              "file to a reader that idles after the header; live servers on both backends (stdlib ssl and "
              "PyOpenSSL) started by the real start_server, bodies sampled densely around 2^14 / 2^16 up to several MB, str and "
              "bytes bodies, static files, slow and bursty readers, byte-identical streams on both backends."
-             " Logging faults (every call into the protocol's logger, for every k) must not add anything after a complete response; the idle reader pauses 7 s (14 s thorough).",
+             " Logging faults (every call into the protocol's logger, for every k) must not add anything after a complete response; the idle reader pauses 7 s (14 s thorough)."
+             " Handlers answer as GeminiResponse, as a subclass with its own constructor, or as an attribute bag, in rotation.",
         note="Trusted: TLC; the stdlib ssl client as TLS peer; byte comparison is the driver's oracle (the model knows lengths and "
              "order, not byte values)."),
     "C20": dict(
@@ -179,7 +192,8 @@ CHECKS = {
              "implementation's own minimum version can refuse); control peers prove TLS 1.0/1.1 negotiable on both OpenSSL "
              "builds; the plaintext path of the PyOpenSSL pump is additionally decided by the TlsPump replay "
              "(InnerOnlyAfterHandshake, NoPlainBeforeTls)."
-             " OnlyTlsOnWire: every byte the PyOpenSSL layer puts on the TCP connection parses as TLS records (also when the handshake timer fires); certificate / key files that cannot be loaded (mismatched pair, garbage) must prevent start-up or at least never yield a listener without TLS.",
+             " OnlyTlsOnWire: every byte the PyOpenSSL layer puts on the TCP connection parses as TLS records (also when the handshake timer fires); certificate / key files that cannot be loaded (mismatched pair, garbage) must prevent start-up or at least never yield a listener without TLS."
+             " Start-up material 'der' (certificate file in DER form); a listener that comes up under odd material is held to NoOldVersion and PlaintextGetsNothing.",
         note="The model is thin (one negotiation rule per construction path); the assurance is the exhaustive configuration "
              "replay. SSLv3 cannot be offered in this sandbox (absent from both OpenSSL builds)."),
     "C14": dict(
@@ -191,7 +205,8 @@ CHECKS = {
              "the OS in a forked child (RLIMIT_FSIZE = disk full after k bytes, uid 65534 = permission error); a recursive "
              "before/after snapshot of the upload directory and its surroundings is projected onto the model's change record "
              "and judged by TLC (formulas on the observation + agreement with Handle)."
-             " Handlers are built directly or through ServerConfig / TOML get_upload_handler() with token lists containing blank entries; pairs of simultaneous uploads to one path (worker threads lined up write-write-rename-rename if the handler uses them).",
+             " Handlers are built directly or through ServerConfig / TOML get_upload_handler() with token lists containing blank entries; pairs of simultaneous uploads to one path (worker threads lined up write-write-rename-rename if the handler uses them)."
+             " Fault kind dropbox (0300 directories owned by the server's uid: storing works, reading the directory does not); declared media types that read like patterns (*, text/*, ?ext/gemini).",
         note="Trusted: TLC; POSIX semantics of the sandbox file system; directories created for an upload are not counted as files.",
         technique="TLA+ spec + TLC model checking; OS-level storage-fault enumeration on the real handler, judged by a TLC observation spec"),
     "C17": dict(
@@ -203,7 +218,8 @@ CHECKS = {
              "is served by a recording peer: the (host, port) connected to and the request line received are compared with the "
              "upstream authority and base + Map + query for six upstream forms (port, base path, trailing slash, IPv6 literal) and "
              "hostile token spellings (@evil, :8080, ;p=1, %2f, .., //)."
-             " Half of the cases use the router built by ServerConfig.from_toml(...).get_location_router() with a sibling proxy location for the same upstream and a second request arriving in the same loop iteration; upstreams include a mixed-case base path.",
+             " Half of the cases use the router built by ServerConfig.from_toml(...).get_location_router() with a sibling proxy location for the same upstream and a second request arriving in the same loop iteration; upstreams include a mixed-case base path."
+             " Queries containing scheme text (titan://..., gemini://...) are forwarded byte for byte.",
         note="Trusted: TLC; the recording peer. An empty segment directly after a trailing-slash prefix (/api//x under /api/) is "
              "left undecided (grey)."),
     "C18": dict(
@@ -238,7 +254,8 @@ CHECKS = {
              "705 600 URLs) is the case generator and oracle: thousands of sampled URLs go through parse_url / normalize_url / "
              "validate_url and a GeminiClientProtocol -> server-protocol round trip; idempotence, same host/port/path/query, "
              "acceptance of the normal form and the components the server parses are judged by TLC (UrlObs)."
-             " The request line of the wire clause is what the real GeminiClient._get_single sends for the caller's spelling.",
+             " The request line of the wire clause is what the real GeminiClient._get_single sends for the caller's spelling."
+             " ClientCli.UrlAsGiven: ten spellings (upper / mixed-case scheme and host, ports, IPv6, empty path, reserved characters) through the real `nauyaca get` denote what was typed.",
         note="No temporal content (stated in DESIGN.md): the specification contributes the systematic product and the expected "
              "components. One known finding: empty path at exactly the length limit.",
         technique="TLA+ grammar model enumerated by TLC as case generator and oracle; library and wire round trip judged by a TLC observation spec"),
